@@ -865,8 +865,14 @@ def rule_agree_eps(ctx, which, units=None):
             ok = bool(inits) and f.term(inits[0]['expr'], inline=True) == ('param', 'epsilon')
             bc = f.calls_to('pgm::PGMIndex::build')
             ok2 = bool(bc) and _strip_cast(f.term(f.n(bc[0])['args'][2], inline=True)) == ('param', 'epsilon')
+            why = f"field init from param: {ok}; build arg from same param: {ok2}"
+            if not bc:
+                # e.g. construction delegated to the base-class constructor, which segments with the template Epsilon of the base
+                # class (PGMIndex<K, 1, ...>) instead of the run-time epsilon that PGMWrapper::search widens by
+                why = 'the constructor does not pass its epsilon parameter to build() (construction delegated elsewhere: the level-0 segmentation then uses the template Epsilon of the base class)'
+                n_src += 1
             obs.append(Ob('AGREE-EPS', f, 0, 'field epsilon (used by search) and the epsilon passed to build are the same constructor parameter',
-                          f"field init from param: {ok}; build arg from same param: {ok2}", OK if (ok and ok2) else VIOLATED, arm='field'))
+                          why, OK if (ok and ok2) else VIOLATED, arm='field'))
     if n_src == 0:
         raise AnalysisBroken(f"AGREE-EPS: no epsilon source found for {cls}")
     return obs
@@ -1167,6 +1173,108 @@ def _conds(fn, node):
         if c:
             out.append((fn.term(c, inline=False), lab, c))
     return out
+
+
+# ------------------------------------------------------------------------------------------ Compressed: LEVEL-SIZES
+def rule_level_sizes(ctx, units=None):
+    """CompressedPGMIndex constructor: the level built from the segments [levels_offsets[j], levels_offsets[j+1]) indexes the level
+    below it, so the size it is given (the bound of its intercepts and of the positions it predicts) must be n for the first
+    level and levels_offsets[j] - levels_offsets[j-1] otherwise; likewise root_range for the root."""
+    import interval
+    obs = []
+    fs = [f for f in ctx.need('pgm::CompressedPGMIndex::CompressedPGMIndex', units) if len(f.params) == 2 and not f.d.get('special')]
+    for f in fs:
+        u = f.unit
+        lams = {g.id: g for g in u.functions.values() if g.d.get('parent_fn') == f.id}
+
+        def expand(t, depth=0):
+            """inline single-definition locals and calls of one-return local closures"""
+            if not isinstance(t, tuple) or depth > 6:
+                return t
+            t = _strip_cast(t)
+            if t and t[0] == 'local' and len(t) == 3:
+                d = f.defs.get(t[2], {})
+                # "writes" that are only passes to a forwarding-reference parameter (emplace_back) do not change the value
+                real = [w for w in d.get('writes', []) if f.n(w)['c'] in ('BinaryOperator', 'CompoundAssignOperator', 'UnaryOperator')]
+                if d.get('init') and not real:
+                    it = _strip_cast(f.term(d['init'], inline=False))
+                    if it[0] not in ('lambda', 'construct', 'init'):      # scalars only: containers keep their name
+                        return expand(it, depth + 1)
+                return t
+            if t and t[0] == 'call' and len(t) == 4 and isinstance(t[3], tuple) and t[3] and t[3][0] == 'local' and len(t[2]) == 1:
+                d = f.defs.get(t[3][2], {})
+                if d.get('init'):
+                    ln = f.n(d['init'])['l']
+                    cand = [g for g in lams.values() if g.d.get('line') == ln and g.name == 'operator()' and len(g.params) == 1 and len(g.returns()) == 1]
+                    if cand:
+                        g = cand[0]
+                        body = g.term(g.n(g.returns()[0])['ch'][0], inline=True)
+                        pn = g.params[0]['name']
+
+                        def subst(x):
+                            if isinstance(x, tuple):
+                                if x == ('param', pn):
+                                    return t[2][0]
+                                return tuple(subst(y) for y in x)
+                            return x
+                        return expand(subst(body), depth + 1)
+            return tuple(expand(x, depth + 1) if isinstance(x, tuple) else x for x in t)
+
+        def off_index(t, var):
+            """c if t is levels_offsets[var + c]"""
+            t = _strip_cast(t)
+            if t[0] == 'index' and _strip_cast(t[1])[0] == 'local' and _strip_cast(t[1])[1] == 'levels_offsets':
+                l = interval.lin(t[2], ('none',))
+                if l and l[0] == var:
+                    return l[1]
+            return None
+
+        def size_form(t, var):
+            """('n',) | ('diff', a, b) for levels_offsets[var+a] - levels_offsets[var+b] | None"""
+            t = _strip_cast(t)
+            if t == ('field', 'n', THIS):
+                return ('n',)
+            if t[0] == 'op' and t[1] == '-' and len(t) == 4:
+                a, b = off_index(t[2], var), off_index(t[3], var)
+                if a is not None and b is not None:
+                    return ('diff', a, b)
+            return None
+
+        for c in f.calls(pred=lambda nd: nd.get('cn') == 'emplace_back'):
+            nd = f.n(c)
+            if not (nd.get('obj') and f.term(nd['obj'], inline=False) == ('field', 'levels', THIS)) or len(nd['args']) != 9 or not reachable(f, c):
+                continue
+            a0 = expand(f.term(nd['args'][0], inline=False))
+            a1 = expand(f.term(nd['args'][1], inline=False))
+            # loop variable: the local that indexes levels_offsets in the first argument
+            var = None
+            for x in _subterms_all(a0):
+                if x[0] == 'index' and _strip_cast(x[1])[0] == 'local' and _strip_cast(x[1])[1] == 'levels_offsets':
+                    l = interval.lin(x[2], ('none',))
+                    if l and isinstance(l[0], tuple):
+                        var = l[0]
+            if var is None:
+                obs.append(Ob('LEVEL-SIZES', f, c, 'the segment range of a level is [levels_offsets[j], levels_offsets[j+1])', 'unrecognised range ' + fmt_term(a0)[:60], UNDECIDED, arm='range'))
+                continue
+            lo = next((off_index(x, var) for x in _subterms_all(a0) if off_index(x, var) is not None), None)
+            hi = next((off_index(x, var) for x in _subterms_all(a1) if off_index(x, var) is not None), None)
+            pls = expand(f.term(nd['args'][7], inline=False))
+            req = 'a level over the segments [levels_offsets[j], levels_offsets[j+1]) is given the size of the level below it: n for the first level, levels_offsets[j] - levels_offsets[j-1] otherwise'
+            ok, why = None, fmt_term(pls)[:90]
+            if lo is None or hi is None or hi != lo + 1:
+                ok = None
+            elif pls[0] == 'cond' and len(pls) == 4:
+                test, x, y = _strip_cast(pls[1]), size_form(pls[2], var), size_form(pls[3], var)
+                tl = interval.lin(test[2], ('none',)) if test[0] == 'op' and test[1] == '==' else None
+                tr = interval.lin(test[3], ('none',)) if test[0] == 'op' and test[1] == '==' else None
+                # the first level is the one whose lower offset index is 0: var + lo == 0
+                first = tl and tr and tl[0] == var and tr[0] is None and tr[1] - tl[1] == -lo
+                if first and x == ('n',) and y is not None and y[0] == 'diff':
+                    ok = (y[1], y[2]) == (lo, lo - 1)
+                    if not ok:
+                        why = f"the size passed is levels_offsets[{fmt_term(var)}{y[1]:+d}] - levels_offsets[{fmt_term(var)}{y[2]:+d}]: the size of " + ('the level itself' if (y[1], y[2]) == (hi, lo) else 'another level') + f", not of the level below it (levels_offsets[{fmt_term(var)}{lo:+d}] - levels_offsets[{fmt_term(var)}{lo - 1:+d}])"
+            obs.append(Ob('LEVEL-SIZES', f, c, req, why, OK if ok else (UNDECIDED if ok is None else VIOLATED), arm='prev-level-size'))
+    return obs
 
 
 # ------------------------------------------------------------------------------------------ Bucketing: TABLE-WIDTH
@@ -1534,7 +1642,24 @@ def rule_conv_range(ctx, which, units=None):
                     src = [x for x in _subterms_all(t) if (x[0] == 'field' and x[1] in INTERCEPT_SOURCES) or (x[0] == 'call' and x[1].rsplit('::', 1)[-1] in INTERCEPT_SOURCES)]
                     if src:
                         bad.append((i, t))
+            # ... and in a type at least as wide as the returned position: uint32_t + uint32_t wraps at 2^32 although the
+            # function returns size_t
+            rets = [r for r in f.returns() if f.n(r)['ch']]
+            rbits = max([(u_.type(f.n(f.n(r)['ch'][0]).get('t', 0)) or {}).get('bits', 0) for r in rets for u_ in [f.unit]] or [0])
+            for i in f.all_ids():
+                nd = f.n(i)
+                if nd['c'] in ('BinaryOperator', 'CompoundAssignOperator') and nd['op'] in ('+', '+=') and reachable(f, i):
+                    ops = [_strip_cast(f.term(c_, inline=False)) for c_ in nd['ch']]
+                    if any((o[0] == 'field' and o[1] in INTERCEPT_SOURCES) or (o[0] == 'call' and o[1].rsplit('::', 1)[-1] in INTERCEPT_SOURCES) for o in ops):
+                        ty = f.unit.type(nd.get('t', 0)) or {}
+                        if ty.get('k') == 'int' and rbits and ty.get('bits', 0) < rbits:
+                            bad.append((i, ('narrow', ty.get('s'), rbits)))
             if reads or bad:
+                if bad and bad[0][1][0] == 'narrow':
+                    obs.append(Ob('INT-INTERCEPT', f, bad[0][0], 'the integer intercept is added to the converted estimate in an integer type at least as wide as the returned position',
+                                  f"`{fmt_term(f.term(bad[0][0], inline=False))[:60]}` is evaluated in `{bad[0][1][1]}` ({rbits}-bit result): the sum wraps for estimates near the type's maximum (a far query is routed to the start of the segment)",
+                                  VIOLATED, arm=f.name))
+                    continue
                 obs.append(Ob('INT-INTERCEPT', f, bad[0][0] if bad else 0, 'the integer intercept is added to the converted estimate in integer arithmetic (never converted to the floating type of the slope)',
                               f"{reads} reads of the intercept, none converted to a floating type" if not bad else
                               f"`{fmt_term(bad[0][1])[:70]}` is converted to a floating type: with Floating = float positions >= 2^24 are rounded",
